@@ -123,6 +123,27 @@ def body(run):
                               dict(geom=g.describe(), proc_crs=proc, max_block_mem=mbm, blocks=nblk, one=one['stats'], many=many['stats']),
                               signature=dict(kind='compare-blocks', forced_fine_grid=bool(forced), cause=cause,
                                              n_differs=any(one['stats'][b_]['n'] != many['stats'][b_]['n'] for b_ in one['stats'])))
+    # ---- N is "exactly ... independent of block size" on EVERY grid, also the forced finer one with blocks of a few pixels (thinner than the
+    #      padding by which the source window is aligned to the reference grid): r2 / RMSE there are known finding D8, N is not
+    for k in range(run.scale(3, 12)):
+        ratio = rng.choice([3, 4])
+        sh = (rng.randint(20, 30), rng.randint(20, 30))
+        off = (rng.randint(1, 3) + rng.choice([1, 2]) / ratio, rng.randint(1, 3) + rng.choice([1, 2]) / ratio)
+        g = synth.Geom(rng.choice([1.5, 3.0]), ratio, 16.0, 48.0, (int(off[0] + sh[0] / ratio) + 4, int(off[1] + sh[1] / ratio) + 4), off, sh)
+        pair = fz.make_pair(run.work, g, rng, smask=fz.src_mask(rng, sh, rng.choice(['none', 'holes'])), tag='t')
+        try:
+            one = fz.compare(pair['src_fn'], pair['ref_fn'], proc_crs='src', threads=1, max_block_mem=1e6)
+            mbm, nblk = fz.pick_block_mem(pair['src_fn'], pair['ref_fn'], 'src', sh[0] * sh[1] // 5, (1, 1))
+            many = fz.compare(pair['src_fn'], pair['ref_fn'], proc_crs='src', threads=rng.choice([1, 2]), max_block_mem=mbm)
+        except Exception as ex:
+            dist['tiny-skipped:' + type(ex).__name__] = dist.get('tiny-skipped:' + type(ex).__name__, 0) + 1
+            continue
+        dist['forced-fine-grid/tiny-blocks'] = dist.get('forced-fine-grid/tiny-blocks', 0) + 1
+        run.count_case(('tiny', k), True, None)
+        dn = {b_: (one['stats'][b_]['n'], many['stats'][b_]['n']) for b_ in one['stats'] if one['stats'][b_]['n'] != many['stats'][b_]['n']}
+        if dn:
+            run.add_violation('comparison statistics depend on block size: N differs: ' + repr(dn), dict(geom=g.describe(), proc_crs='src', max_block_mem=mbm, blocks=nblk),
+                              signature=dict(kind='compare-blocks', forced_fine_grid=True, cause='other', n_differs=True))
     run.cov['rule'] = ('real comparisons of file pairs whose processing-grid pixel pairs are known exactly (same grid; source 2x / 4x finer, aligned, '
                        'integer data so that float32 sums are exact), 1..3 bands with band selections, 1..20 blocks, 1..4 threads: N exact, r2 / RMSE^2 / '
                        'rRMSE^2 to 1e-8 against the Gallina model and against an exact-fraction oracle, and against the single-block run; plus '
